@@ -142,3 +142,17 @@ Section Gen.
        c_dump := match names with [] => None
                  | _ => Some (isort (fun a b => str_leb (fst a) (fst b)) (map (fun wn => (snd wn, fst wn)) names)) end |}.
 End Gen.
+
+(* ---------- the fragment C03_roundtrip speaks about ---------- *)
+(* property schemas whose generated type the round-trip theorem covers: every scalar and string format
+   (C03_types_supported), enums, arrays of those, references to schemas of the document; additionalProperties
+   maps (wrapper classes) are outside the theorem (correspondence and oracle only) *)
+Fixpoint pschema_ok (ids : list N) (p : pschema) : bool :=
+  match p with
+  | PStr _ | PInt | PNum | PBool | PEnum _ => true
+  | PArr items => pschema_ok ids items
+  | PRef c | PSelf c => mem_N c ids
+  | PMap _ => false
+  end.
+Definition schema_ok (ids : list N) (s : oschema) : Prop :=
+  NoDup (map p_name (s_props s)) /\ forall p, In p (s_props s) -> pschema_ok ids (p_schema p) = true.
